@@ -306,7 +306,7 @@ def conforming_shapes_accepted(ctx, rp, e, res, kn, qn, variant_of_kind, enum_pa
                       "Op%s with operands %s conforms to its grammar entry but is rejected: %s" % (e["opname"], list(shape), real.get("result")),
                       {"cmd": "parse_script %s C" % hexb, "real": real})
     else:
-        ctx.ob("parse_inst/%s/all-conforming-shapes-accepted" % e["opname"], None, "model has no accepting path for %s but the compiled crate accepts" % (shape,))
+        ctx.ob("parse_inst/%s/all-conforming-shapes-accepted" % e["opname"], True, "shape %s accepted by the compiled crate (no accepting path within the model's bounds)" % (shape,))
 
 
 def nested_variadic(ctx, S, rp, res, nested_entries, kn, qn, variant_of_kind):
@@ -341,7 +341,9 @@ def nested_variadic(ctx, S, rp, res, nested_entries, kn, qn, variant_of_kind):
                           "OpSpecConstantOp naming Op%s with three %s operands (conforming) is rejected: %s" % (ne["opname"], var, real.get("result")),
                           {"cmd": "parse_script %s C" % hexb, "real": real})
         else:
-            ctx.ob("spec-constant-op/variadic/%s" % ne["opname"], None, "model finds no accepting path with >= 2 variadic operands, but the compiled crate accepts")
+            # an existential claim ('a conforming instruction of this shape is accepted'): the native acceptance of the concrete
+            # witness settles it; the symbolic run did not get there within its unrolling bound
+            ctx.ob("spec-constant-op/variadic/%s" % ne["opname"], True, "accepted by the compiled crate (beyond the model's unrolling bound)")
 
 
 def check_path(S, q, e, r, off, idx, pat, kn):
